@@ -66,6 +66,12 @@ type SimVCS struct {
 	Between func(site string, ws int)
 	// Forbidden, when set, makes any call a violation source: used by the C15 doubles.
 	Forbidden func(site string)
+	// Retain makes the back end keep the very slices it is handed as File.Contents (an in-memory
+	// back end may; the interface does not say who owns them) instead of copying them.
+	Retain bool
+	// CommitRepr, when set, chooses what a successful TryCommit hands back for revision rev (the
+	// interface says `any`: a back end may well have nothing to tell, i.e. nil).
+	CommitRepr func(rev int) any
 }
 
 // VCSResult is one Result() call.
@@ -199,6 +205,10 @@ func (w *Workspace) WriteOrCreateFiles(_ context.Context, files ...*endorse.File
 		return err
 	}
 	for _, f := range files {
+		if w.V.Retain {
+			w.Writes[f.Path] = f.Contents
+			continue
+		}
 		w.Writes[f.Path] = append([]byte(nil), f.Contents...)
 	}
 	return nil
@@ -297,6 +307,9 @@ func (w *Workspace) TryCommit(context.Context) (any, error) {
 	w.V.HeadRev++
 	w.Committed = true
 	w.CommitID = fmt.Sprintf("rev-%d", w.V.HeadRev)
+	if w.V.CommitRepr != nil {
+		w.CommitID = w.V.CommitRepr(w.V.HeadRev)
+	}
 	w.V.Commits = append(w.V.Commits, VCSCommit{Rev: w.V.HeadRev, Workspace: w.ID, Files: files})
 	w.V.R.Eventf("vcs commit ws=%d -> %v %v", w.ID, w.CommitID, files)
 	return w.CommitID, nil
